@@ -29,3 +29,58 @@ Proof.
   apply nodupz_In. unfold strip_p2p. apply in_map_iff. exists (a, b). split; [reflexivity|].
   unfold resolve_all. apply in_flat_map. exists e. split; assumption.
 Qed.
+
+(* ---- the filters ------------------------------------------------------------------------------- *)
+From Verif Require Import lib.Wire c05.SpecLimiter c05.SpecWorker c05.SpecAddrs.
+
+Section PipelineProofs.
+  Variable info : Z -> ainfo.
+
+  Lemma dominated_spec : forall u a,
+    dominated info (filter (fun b => ai_tpt (info b)) (nodupz u)) a =
+    (let pc := preferred_cls (ai_cls (info a)) in
+     negb (pc =? 0) && existsb (fun b => ai_tpt (info b) && (ai_cls (info b) =? pc) && (ai_grp (info b) =? ai_grp (info a))) u).
+  Proof.
+    intros u a. unfold dominated. cbv zeta. f_equal.
+    match goal with |- ?x = ?y => destruct x eqn:E1; destruct y eqn:E2; try reflexivity; exfalso end.
+    - apply existsb_exists in E1. destruct E1 as [b [Hb Hc]]. apply filter_In in Hb. destruct Hb as [Hb Ht].
+      apply (proj1 (nodupz_In _ _)) in Hb.
+      assert (X : existsb (fun b => ai_tpt (info b) && (ai_cls (info b) =? preferred_cls (ai_cls (info a))) && (ai_grp (info b) =? ai_grp (info a))) u = true).
+      { apply existsb_exists. exists b. split; [exact Hb|]. rewrite Ht. exact Hc. }
+      congruence.
+    - apply existsb_exists in E2. destruct E2 as [b [Hb Hc]]. apply andb_true_iff in Hc. destruct Hc as [Hc Hg].
+      apply andb_true_iff in Hc. destruct Hc as [Ht Hc].
+      assert (X : existsb (fun b => (ai_cls (info b) =? preferred_cls (ai_cls (info a))) && (ai_grp (info b) =? ai_grp (info a)))
+                    (filter (fun b => ai_tpt (info b)) (nodupz u)) = true).
+      { apply existsb_exists. exists b. split; [apply filter_In; split; [apply nodupz_In, Hb | exact Ht] | rewrite Hc, Hg; reflexivity]. }
+      congruence.
+  Qed.
+
+  Lemma pipeline_spec_l : forall fdir es a,
+    In a (fst (addrs_pipeline info fdir es)) <-> should_dial info fdir (strip_p2p (resolve_all es)) a = true.
+  Proof.
+    intros fdir es a. unfold addrs_pipeline, known_undialables, should_dial. cbn [fst]. set (u := strip_p2p (resolve_all es)).
+    rewrite <- dominated_spec.
+    assert (Core : In a (filter (fun a0 => negb (ai_unspec (info a0)))
+                     (filter (fun a0 => negb (dominated info (filter (fun b => ai_tpt (info b)) (nodupz u)) a0))
+                        (filter (fun b => ai_tpt (info b)) (nodupz u)))) <->
+                   memz a u && ai_tpt (info a) && negb (ai_unspec (info a)) &&
+                   negb (dominated info (filter (fun b => ai_tpt (info b)) (nodupz u)) a) = true).
+    { rewrite !filter_In, nodupz_In, <- memz_In. rewrite !andb_true_iff. tauto. }
+    destruct fdir; cbn [andb].
+    - rewrite filter_In, Core. rewrite !andb_true_iff. tauto.
+    - rewrite Core. rewrite !andb_true_iff. cbn [negb]. tauto.
+  Qed.
+
+  Lemma pipeline_nodup_l : forall fdir es, NoDup (fst (addrs_pipeline info fdir es)) /\ NoDup (snd (addrs_pipeline info fdir es)).
+  Proof.
+    intros. unfold addrs_pipeline, known_undialables. cbn [fst snd]. split; [|apply NoDup_filter, nodupz_nodup].
+    destruct fdir; repeat apply NoDup_filter; apply nodupz_nodup.
+  Qed.
+
+  Lemma pipeline_errs_l : forall fdir es a,
+    In a (snd (addrs_pipeline info fdir es)) <-> In a (strip_p2p (resolve_all es)) /\ ai_tpt (info a) = false.
+  Proof.
+    intros. unfold addrs_pipeline, known_undialables. cbn [snd]. rewrite filter_In, nodupz_In, negb_true_iff. tauto.
+  Qed.
+End PipelineProofs.
